@@ -7,8 +7,14 @@ All statements are about the definitions of `Nitime/Model/C10.lean` (`arLD`, `ar
 The Levinson–Durbin induction itself is `Lemmas/LevinsonDurbin.lean` (`LD.ld_correct`);
 `ldLoop_spec` shows that the model's loop state (list `w`, lagging `b`, `w_k`) is `LD.ld`.
 
-Stability is proved as: all |κ_j| < 1 ⇒ all roots inside the unit circle (`arLD_stable`) and σ > 0
-(`sigma_pos`); that |κ_j| < 1 follows from a positive-definite Toeplitz matrix is not proved here.
+Stability is proved in full for the computed-autocorrelation path: the Hermitian Toeplitz matrix of the
+biased sample autocorrelation is a Gram matrix (`autocorr_toeplitz_psd`), positive definite for every
+non-zero signal (`autocorr_toepPD`); positive definite ⇒ every σ_j > 0, every divisor non-zero, every
+|κ_j| < 1 (`ld_sigma_pos_of_toeplitz_pd`); all |κ_j| < 1 ⇒ all roots inside the unit circle
+(`arLD_stable`); together `arLD_stable_of_signal` (no hypothesis besides "the signal is not
+identically zero").  For a user-SUPPLIED `rxx` the same holds under the hypothesis `ToepPD`
+(`arLD_stable_of_pd`); a supplied sequence that is not positive definite (e.g. the unbiased estimate)
+carries no stability claim.
 The model's own `solve` (`GMat.solve`, Gauss–Jordan) is proved to honour the `IsSolution` contract
 whenever it returns (`gjSolve_isSolution`, `arYW_gj_eq_arLD`).  Not proved here: Float ≈ ℂ.
 -/
@@ -17,7 +23,9 @@ import Nitime.Lemmas.ARInst
 import Nitime.Lemmas.LevinsonDurbin
 import Nitime.Lemmas.SchurCohn
 import Nitime.Lemmas.GaussJordan
+import Nitime.Lemmas.ToeplitzGram
 import Mathlib.LinearAlgebra.Matrix.Nondegenerate
+import Mathlib.LinearAlgebra.Matrix.ToLinearEquiv
 
 open Finset ComplexConjugate
 open Nitime.AR Nitime.C10
@@ -494,6 +502,199 @@ theorem generator_recursion (σ : ℂ) (coefs v : List ℂ) (drop m : ℕ)
   simp only [List.getD_cons_succ, getD_map_neg]
   ring
 
+/-! ### stability: Toeplitz form = Gram form ⇒ positive definite ⇒ σ_j > 0, |κ_j| < 1 ⇒ stable -/
+
+lemma rr_eq_toepEntry (r : ℕ → ℂ) (k i : ℕ) : LD.rr r k i = toepEntry r k i := rfl
+
+/-- bridge: the model's `toepForm` at `ℂ` is the Hermitian form `LD.tform` -/
+lemma toepForm_eq (r : ℕ → ℂ) (p : ℕ) (c : ℕ → ℂ) : toepForm r p c = LD.tform r p c := by
+  unfold toepForm LD.tform
+  rw [sumRange_eq]
+  refine sum_congr rfl fun k _ => ?_
+  rw [sumRange_eq]
+  refine sum_congr rfl fun i _ => ?_
+  simp only [sc_mul, sc_conj, rr_eq_toepEntry]
+
+lemma shiftSig_eq (x : ℕ → ℂ) (n t i : ℕ) : shiftSig x n t i = LD.shiftSig x n t i := rfl
+
+lemma filtOut_eq (x : ℕ → ℂ) (n p : ℕ) (c : ℕ → ℂ) (t : ℕ) : filtOut x n p c t = LD.filt x n p c t := by
+  unfold filtOut LD.filt
+  rw [sumRange_eq]
+  refine sum_congr rfl fun i _ => ?_
+  simp only [sc_mul, shiftSig_eq]
+
+/-- bridge: the model's `gramForm` at `ℂ` is `(1/n)·Σ_t |Σ_i c_i x[t−i]|²` -/
+lemma gramForm_eq (x : ℕ → ℂ) (n p : ℕ) (c : ℕ → ℂ) :
+    gramForm x n p c = (((∑ t ∈ range (n + p), Complex.normSq (LD.filt x n p c t)) / (n : ℝ) : ℝ) : ℂ) := by
+  unfold gramForm
+  rw [sumRange_eq]
+  simp only [sc_div, sc_re, sc_mul, sc_conj, sc_ofNat, filtOut_eq, Complex.mul_conj, Complex.ofReal_re]
+  push_cast
+  rfl
+
+lemma autocorr_eq_acorr (x : ℕ → ℂ) (N : ℕ) : (fun k => autocorrDirect x N k) = LD.acorr x N :=
+  funext fun k => autocorr_is_lagged_sum x N k
+
+/-- positive definiteness of `toeplitz(r[:p+1])`, stated with the model's `toepForm` -/
+def ToepPD (r : ℕ → ℂ) (p : ℕ) : Prop :=
+  ∀ c : ℕ → ℂ, (∃ i, i ≤ p ∧ c i ≠ 0) → 0 < (toepForm r p c).re
+
+lemma toepPD_iff (r : ℕ → ℂ) (p : ℕ) : ToepPD r p ↔ LD.ToepPD r p := by
+  unfold ToepPD LD.ToepPD
+  simp only [toepForm_eq]
+
+/-- **C10 Toeplitz form = Gram form (`autocorr_toeplitz_psd`).** For the biased sample autocorrelation
+the code uses (`utils.autocorr`: `r_k = (1/N)·Σ_m x[m+k]·conj x[m]`), for EVERY signal, length, order
+and coefficient vector: `cᴴ·toeplitz(r[:p+1])·c = (1/N)·Σ_{t<N+p} |Σ_{i≤p} c_i·x[t−i]|²` (x zero outside
+`0..N−1`); it is therefore `≥ 0`, and `> 0` as soon as neither `x` nor `c` vanishes identically. -/
+theorem autocorr_toeplitz_psd (x : ℕ → ℂ) (N p : ℕ) (c : ℕ → ℂ) :
+    toepForm (fun k => autocorrDirect x N k) p c = gramForm x N p c ∧
+    0 ≤ (toepForm (fun k => autocorrDirect x N k) p c).re ∧
+    ((∃ m, m < N ∧ x m ≠ 0) → (∃ i, i ≤ p ∧ c i ≠ 0) →
+      0 < (toepForm (fun k => autocorrDirect x N k) p c).re) := by
+  rw [toepForm_eq, gramForm_eq, autocorr_eq_acorr]
+  exact ⟨LD.tform_acorr_eq_gram x N p c, LD.tform_acorr_nonneg x N p c,
+    fun hx hc => LD.acorr_toepPD x N hx p c hc⟩
+
+/-- the Toeplitz matrix of the computed autocorrelation of a non-zero signal is positive definite,
+at every order (also orders beyond the signal length) -/
+theorem autocorr_toepPD (x : ℕ → ℂ) (N : ℕ) (hx : ∃ m, m < N ∧ x m ≠ 0) (p : ℕ) :
+    ToepPD (fun k => autocorrDirect x N k) p :=
+  fun c hc => (autocorr_toeplitz_psd x N p c).2.2 hx hc
+
+lemma toepPD_le {p j : ℕ} (hj : j ≤ p) (h : ToepPD r p) : ToepPD r j :=
+  (toepPD_iff r j).2 (LD.toepPD_mono hj ((toepPD_iff r p).1 h))
+
+lemma predErrFilter_eq (l : List ℂ) : predErrFilter l = LD.predErr (coef l) := by
+  funext i
+  simp [predErrFilter, LD.predErr, coef]
+
+/-- **C10 positive definite ⇒ σ_j > 0, divisors ≠ 0, |κ_j| < 1 (`ld_sigma_pos_of_toeplitz_pd`).**
+If `toeplitz(r[:p+2])` is positive definite (then so are all its leading blocks), the order-`(p+1)`
+run of `AR_est_LD` never divides by zero (`DivisorsOK` is discharged), the error power reported at
+every intermediate order `1..p+1` is strictly positive, and every reflection coefficient has
+modulus `< 1`. -/
+theorem ld_sigma_pos_of_toeplitz_pd (h0 : conj (r 0) = r 0) (p : ℕ) (hpd : ToepPD r (p + 1)) :
+    DivisorsOK r p ∧
+    (∀ j ∈ Icc 1 (p + 1), 0 < ((arLD r j).2).re) ∧
+    (∀ j ∈ Icc 1 (p + 1), Complex.normSq (kappaM r j) < 1) := by
+  have hpd' : ∀ j, j ≤ p + 1 → LD.ToepPD r j := fun j hj => (toepPD_iff r j).1 (toepPD_le hj hpd)
+  have hb := LD.ld_b_pos_of_pd h0 (p + 1) hpd'
+  refine ⟨?_, ?_, ?_⟩
+  · intro j hj
+    rw [(ldLoop_spec h0 j).2.2.2]
+    intro hz
+    have := (hb j (by omega)).2
+    rw [hz] at this
+    simp at this
+  · intro j hj
+    simp only [mem_Icc] at hj
+    obtain ⟨q, rfl⟩ : ∃ q, j = q + 1 := ⟨j - 1, by omega⟩
+    rw [(arLD_is_ld h0 q).2]
+    exact (hb (q + 1) (by omega)).2
+  · intro j hj
+    simp only [mem_Icc] at hj
+    obtain ⟨q, rfl⟩ : ∃ q, j = q + 1 := ⟨j - 1, by omega⟩
+    have := LD.kap_lt_one_of_pd h0 (p + 1) hpd' q (by omega)
+    rwa [kappaM, (ldLoop_spec h0 q).2.2.1, LD.ld_succ_a_top]
+
+/-- **C10 σ is the Toeplitz form at the prediction-error filter.**
+`sigma = cᴴ·toeplitz(r[:p+2])·c` with `c = [1, −a_1, …, −a_{p+1}]`. -/
+theorem arLD_sigma_is_form (h0 : conj (r 0) = r 0) (p : ℕ) (hd : DivisorsOK r p) :
+    (arLD r (p + 1)).2 = toepForm r (p + 1) (predErrFilter (arLD r (p + 1)).1) := by
+  rw [toepForm_eq, predErrFilter_eq, ← LD.err_eq_tform (arLD_solves_YW h0 p hd), (arLD_sigma h0 p hd).1]
+  rfl
+
+/-- **C10 stability from a positive-definite autocorrelation (supplied `rxx`).** If
+`toeplitz(r[:p+2])` is positive definite and `r_0` is real, `AR_est_LD(·, p+1, rxx=r)` solves the
+Yule–Walker equations, reports `σ = R(0) − Σ a_k conj R(k)`, real and `> 0`, and the fitted model is
+stable: every zero of `z^{p+1} − Σ a_i z^{p+1−i}` lies strictly inside the unit circle.  No
+hypothesis about divisors or reflection coefficients is left. -/
+theorem arLD_stable_of_pd (h0 : conj (r 0) = r 0) (p : ℕ) (hpd : ToepPD r (p + 1)) :
+    LD.YW r (p + 1) (coef (arLD r (p + 1)).1) ∧
+    (arLD r (p + 1)).2 = r 0 - ∑ i ∈ Icc 1 (p + 1), coef (arLD r (p + 1)).1 i * conj (r i) ∧
+    conj (arLD r (p + 1)).2 = (arLD r (p + 1)).2 ∧
+    0 < ((arLD r (p + 1)).2).re ∧
+    ∀ z : ℂ, 1 ≤ Complex.normSq z →
+      z ^ (p + 1) - ∑ i ∈ Icc 1 (p + 1), coef (arLD r (p + 1)).1 i * z ^ (p + 1 - i) ≠ 0 := by
+  obtain ⟨hd, hs, hk⟩ := ld_sigma_pos_of_toeplitz_pd h0 p hpd
+  exact ⟨arLD_solves_YW h0 p hd, (arLD_sigma h0 p hd).1, (arLD_sigma h0 p hd).2,
+    hs (p + 1) (by simp only [mem_Icc]; omega), fun z hz => arLD_stable h0 p hk z hz⟩
+
+/-- **C10 stability, computed-autocorrelation path (`arLD_stable_of_signal`).** For EVERY signal `x`
+of length `N` that is not identically zero and EVERY order `p+1 ≥ 1`, `AR_est_LD(x, p+1)` (which uses
+the biased `utils.autocorr`) never divides by zero, solves the Yule–Walker equations of the data,
+reports a real `σ = R(0) − Σ a_k conj R(k) > 0`, and returns a STABLE model (all roots strictly
+inside the unit circle). -/
+theorem arLD_stable_of_signal (x : ℕ → ℂ) (N : ℕ) (hx : ∃ m, m < N ∧ x m ≠ 0) (p : ℕ) :
+    DivisorsOK (fun k => autocorrDirect x N k) p ∧
+    LD.YW (fun k => autocorrDirect x N k) (p + 1) (coef (arLD (fun k => autocorrDirect x N k) (p + 1)).1) ∧
+    (arLD (fun k => autocorrDirect x N k) (p + 1)).2
+      = autocorrDirect x N 0 - ∑ i ∈ Icc 1 (p + 1),
+          coef (arLD (fun k => autocorrDirect x N k) (p + 1)).1 i * conj (autocorrDirect x N i) ∧
+    conj (arLD (fun k => autocorrDirect x N k) (p + 1)).2 = (arLD (fun k => autocorrDirect x N k) (p + 1)).2 ∧
+    0 < ((arLD (fun k => autocorrDirect x N k) (p + 1)).2).re ∧
+    ∀ z : ℂ, 1 ≤ Complex.normSq z →
+      z ^ (p + 1) - ∑ i ∈ Icc 1 (p + 1),
+        coef (arLD (fun k => autocorrDirect x N k) (p + 1)).1 i * z ^ (p + 1 - i) ≠ 0 := by
+  have h0 : conj ((fun k => autocorrDirect x N k) 0) = (fun k => autocorrDirect x N k) 0 :=
+    autocorr_zero_real x N
+  have hpd := autocorr_toepPD x N hx (p + 1)
+  exact ⟨(ld_sigma_pos_of_toeplitz_pd h0 p hpd).1, arLD_stable_of_pd h0 p hpd⟩
+
+/-- positive definite ⇒ non-singular: `det toeplitz(r[:p+1]) ≠ 0` -/
+theorem toepMatrix_det_ne_zero_of_pd {p : ℕ} (hpd : ToepPD r p) : (toepMatrix r (p + 1)).det ≠ 0 := by
+  intro hdet
+  obtain ⟨v, hv, hTv⟩ := Matrix.exists_mulVec_eq_zero_iff.mpr hdet
+  set c : ℕ → ℂ := fun i => if h : i < p + 1 then v ⟨i, h⟩ else 0 with hc
+  have hcv : ∀ i : Fin (p + 1), c i = v i := fun i => by
+    simp only [hc, dif_pos i.2]
+  have hne : ∃ i, i ≤ p ∧ c i ≠ 0 := by
+    by_contra hall
+    apply hv
+    funext i
+    by_contra hi
+    exact hall ⟨i, by have := i.2; omega, by rwa [hcv i]⟩
+  have hz : toepForm r p c = 0 := by
+    rw [toepForm_eq]
+    unfold LD.tform
+    refine sum_eq_zero fun k hk => ?_
+    simp only [mem_range] at hk
+    have hrow : ∑ i ∈ range (p + 1), toepEntry r k i * c i = 0 := by
+      have := congrFun hTv ⟨k, hk⟩
+      simp only [Matrix.mulVec, dotProduct, toepMatrix, Matrix.of_apply, Pi.zero_apply] at this
+      rw [← this, ← Fin.sum_univ_eq_sum_range (fun i => toepEntry r k i * c i) (p + 1)]
+      refine sum_congr rfl fun i _ => ?_
+      rw [hcv i]
+    calc ∑ i ∈ range (p + 1), c i * conj (c k) * LD.rr r k i
+        = conj (c k) * ∑ i ∈ range (p + 1), toepEntry r k i * c i := by
+          rw [mul_sum]
+          refine sum_congr rfl fun i _ => ?_
+          rw [rr_eq_toepEntry]; ring
+      _ = 0 := by rw [hrow, mul_zero]
+  have := hpd c hne
+  rw [hz] at this
+  simp at this
+
+/-- **C10 the two estimators agree, positive-definite case.** With a positive-definite
+`toeplitz(r[:p+2])` neither `DivisorsOK` nor `det ≠ 0` needs to be assumed. -/
+theorem arYW_eq_arLD_of_pd (h0 : conj (r 0) = r 0) (p : ℕ) (hpd : ToepPD r (p + 1))
+    (solve : List (List ℂ) → List ℂ → List ℂ)
+    (hsolve : IsSolution r (p + 1) (arYW solve r (p + 1)).1) :
+    ∀ i, i < p + 1 → (arYW solve r (p + 1)).1.getD i 0 = (arLD r (p + 1)).1.getD i 0 :=
+  arYW_eq_arLD h0 p (ld_sigma_pos_of_toeplitz_pd h0 p hpd).1
+    (toepMatrix_det_ne_zero_of_pd (toepPD_le (by omega) hpd)) solve hsolve
+
+/-- **C10 the two estimators agree on every non-zero signal** (computed autocorrelation), for any
+`solve` that honours `T·a = y`; so `AR_est_YW`'s model is the stable one of `arLD_stable_of_signal`. -/
+theorem arYW_eq_arLD_of_signal (x : ℕ → ℂ) (N : ℕ) (hx : ∃ m, m < N ∧ x m ≠ 0) (p : ℕ)
+    (solve : List (List ℂ) → List ℂ → List ℂ)
+    (hsolve : IsSolution (fun k => autocorrDirect x N k) (p + 1)
+      (arYW solve (fun k => autocorrDirect x N k) (p + 1)).1) :
+    ∀ i, i < p + 1 → (arYW solve (fun k => autocorrDirect x N k) (p + 1)).1.getD i 0
+      = (arLD (fun k => autocorrDirect x N k) (p + 1)).1.getD i 0 :=
+  arYW_eq_arLD_of_pd (autocorr_zero_real x N) p (autocorr_toepPD x N hx (p + 1)) solve hsolve
+
 /-! ### non-vacuity -/
 
 /-- white noise `r = δ`: the divisors are non-zero, the hypotheses of the theorems are met -/
@@ -511,5 +712,20 @@ example : IsSolution (fun k => if k = 0 then (1 : ℂ) else 0) 1 [0] := by
 
 example : conj ((fun k => if k = 0 then (1 : ℂ) else 0) 0) = (fun k => if k = 0 then (1 : ℂ) else 0) 0 := by
   simp
+
+/-- the unit impulse is a non-zero signal: `arLD_stable_of_signal` applies (white noise, `r = δ/1`) -/
+example : ∃ m, m < 1 ∧ (fun k => if k = 0 then (1 : ℂ) else 0) m ≠ 0 := ⟨0, by omega, by simp⟩
+
+/-- `ToepPD` is satisfiable: the identity matrix (`r = δ`) at order 0 -/
+example : ToepPD (fun k => if k = 0 then (1 : ℂ) else 0) 0 := by
+  intro c hc
+  obtain ⟨i, hi, hci⟩ := hc
+  have : i = 0 := by omega
+  subst this
+  rw [toepForm_eq]
+  have : LD.tform (fun k => if k = 0 then (1 : ℂ) else 0) 0 c = c 0 * conj (c 0) := by
+    simp [LD.tform, LD.rr]
+  rw [this, Complex.mul_conj, Complex.ofReal_re]
+  exact Complex.normSq_pos.mpr hci
 
 end Nitime.C10.Props
